@@ -131,18 +131,31 @@ def run(chk):
         times += [k * period - 1, k * period, k * period + period - 1, rnd.randrange(2 ** 40)]
         if quick:
             times = rnd.sample(times, 8)
-        for t in times:
+        key_now = key
+        for ti2, t in enumerate(times):
+            if ti2 == len(times) // 2:
+                # history: the object is re-keyed after it has already produced tokens (key, hex_key and the
+                # tokens must all follow the new key)
+                key_now = bytes(rnd.randrange(256) for _ in range(klen)) if klen > 1 else b"Z"
+                totp.key = key_now
+                if totp.key != key_now or totp.hex_key != key_now.hex():
+                    chk.violation("rekey:key", "assigning TOTP.key did not change the reported key", {"key": key_now.hex()})
             for form, tv in time_forms(rnd, t):
-                tok = totp.generate(tv)
+                try:
+                    tok = totp.generate(tv)
+                except Exception as e:
+                    chk.violation(f"generate:raises:{form}", f"generate({form} time) raised {type(e).__name__}: {e}",
+                                  {"key": key_now.hex(), "alg": alg, "period": period, "time": repr(tv), "seconds": t})
+                    continue
                 c = tok.counter
-                digest = hmac.new(key, struct.pack(">Q", c), getattr(hashlib, alg)).digest()   # independent of passlib
+                digest = hmac.new(key_now, struct.pack(">Q", c), getattr(hashlib, alg)).digest()   # independent of passlib
                 evs.append({"op": "generate", "t": limbs(t), "p": period, "digits": digits, "digest": list(digest),
                             "token": [int(ch) for ch in tok.token] if tok.token.isdigit() else [-1],
-                            "counter": limbs(c), "expire": limbs(tok.expire_time), "start": limbs(tok.start_time),
-                            "_form": form, "_alg": alg, "_key": key.hex(), "_t": t, "_token": tok.token})
+                            "counter": limbs(c) if c >= 0 else [-1], "expire": limbs(max(tok.expire_time, 0)), "start": limbs(max(tok.start_time, 0)),
+                            "_form": form, "_alg": alg, "_key": key_now.hex(), "_t": t, "_token": tok.token, "_rekeyed": key_now != key})
                 pc = "1" if period == 1 else "30" if period == 30 else "other"
-                chk.count(("gen", alg, digits, pc, form, digest[-1] & 15, tok.token[0] == "0", t >= 2 ** 31))
-                chk.action("generate")
+                chk.count(("gen", alg, digits, pc, form, digest[-1] & 15, tok.token[0] == "0", t >= 2 ** 31, key_now != key))
+                chk.action("generate" + ("-after-rekey" if key_now != key else ""))
                 if tuple(tok) != (tok.token, tok.expire_time):
                     chk.violation("generate:tuple", "TotpToken does not unpack as (token, expire_time)", {"t": t})
     # negative times are refused
